@@ -200,6 +200,10 @@ def check_doc(t: Tally, kidx, shape, via, long_streams=True):
                     defn = space_packet_parser.load_xml(path if sum(kidx) % 2 else pathlib.Path(path))
                 finally:
                     os.unlink(path)
+            elif via == "copy":
+                # a deep copy of a loaded definition is a definition like any other
+                import copy
+                defn = copy.deepcopy(load_doc(doc))
             else:
                 defn = load_doc(doc) if via == "xml" else build_objects(doc)
     except BaseException as e:  # noqa: BLE001
@@ -364,6 +368,7 @@ def run(ctx):
     tasks = [{"docs": ch, "via": "xml", "tier": ctx.tier} for ch in chunked(docs_, 160 if ctx.quick else 400)]
     tasks += [{"docs": ch, "via": "objects", "tier": ctx.tier} for ch in chunked(docs_[::9], 24)]
     tasks += [{"docs": ch, "via": "file", "tier": ctx.tier} for ch in chunked(docs_[5::23], 24)]
+    tasks += [{"docs": ch, "via": "copy", "tier": ctx.tier} for ch in chunked(docs_[11::29], 24)]
     tally = fan_out(_task, tasks, jobs=ctx.jobs, seed=ctx.seed)
     from mc.checks.c09 import BUNDLED
     # the 1.6 MB CTIM document takes ~15 s to load twice: thorough tier only
